@@ -4,7 +4,7 @@
    awaited future is resolved/cancelled by the connection (C01/C08) and that asyncio timers
    fire is outside these models. *)
 From Coq Require Import QArith Qround.
-From AV Require Import Base Gen_session Cost Recalc RecalcProofs Limiter LimiterProofs Timeout TimeoutProofs.
+From AV Require Import Base Gen_session Cost Recalc RecalcProofs Limiter LimiterProofs Timeout TimeoutProofs Throttle ThrottleProofs.
 
 (* the adaptive limit starts at 50; each recalibration - whatever the measured response times
    and the configured target response time - yields a limit in 1..250 that rose by at most
@@ -43,6 +43,35 @@ Proof.
   - intros w. apply excess_exit.
 Qed.
 
+(* ... and that identification is itself a theorem about the shape of RPCSession._send_concurrent, which is
+   regenerated from the source on every run (send_concurrent_ops: THandle = `await future`): the wait for the
+   response happens only inside the outgoing limiter's block, which is entered first, once, and left again.
+   Hence, for every sequence of calls, resumptions, wake-ups, cancellations and limit changes, the requests
+   awaiting their response all hold a permit - never more of them than the largest limit that has been in
+   force, nor than the current limit plus the excess a lowering left - and no permit stays with a call that
+   has ended (model/Throttle.v, theorems of props/C13.v instantiated) *)
+Theorem C20_send_shape :
+  bracketed send_concurrent_ops = true /\ acquire_first_once send_concurrent_ops = true /\
+  existsb is_handle send_concurrent_ops = true.
+Proof. vm_compute. repeat split. Qed.
+
+Theorem C20_awaiting_hold_permits : forall t ls, (1 <= t)%Z -> Forall tok_label ls ->
+  let st := trun send_concurrent_ops t ls in
+  incl (running st) (holders (lim st)) /\
+  (Z.of_nat (length (running st)) <= maxt (lim st))%Z /\
+  (Z.of_nat (length (running st)) <= target (lim st) + excess (lim st))%Z /\
+  (forall w, In w (holders (lim st)) -> In w (map fst (reqs st))) /\
+  arrived st = asked st ++ ready st.
+Proof.
+  intros t ls Ht Hl st. assert (Hb : bracketed send_concurrent_ops = true) by apply C20_send_shape.
+  pose proof (trun_inv _ t ls Hb Ht Hl) as H. fold st in H.
+  pose proof (running_le_holders st H) as Hlen. pose proof (i_lim _ _ H) as Hi.
+  pose proof (inv_holders_le_semv _ Hi). pose proof (holders_le_target_plus_excess _ Hi).
+  destruct Hi as [(_ & _ & Hs & _) _].
+  split; [now apply running_hold|]. split; [lia|]. split; [lia|]. split; [now apply holders_live|].
+  apply trun_arrival_order. apply C20_send_shape.
+Qed.
+
 (* the wait for the response runs under timeout_after(T): whatever the peer does (answers after
    d ticks, d arbitrarily large = never) and whenever the waiter is cancelled (connection
    lost), the caller is released no later than T ticks after the request was written, with
@@ -58,6 +87,8 @@ Example C20_ex :
 Proof. vm_compute. reflexivity. Qed.
 
 Print Assumptions C20_initial.
+Print Assumptions C20_send_shape.
+Print Assumptions C20_awaiting_hold_permits.
 Print Assumptions C20_recalc_range_and_step.
 Print Assumptions C20_limit_always_in_range.
 Print Assumptions C20_awaiting_le_max_limit.
